@@ -125,6 +125,13 @@ Definition c01_resp (k : wi_case) : bool :=
     Z.eqb (rv_status t) (rv_status d) && Z.eqb (rv_body t) (rv_body d) && Z.eqb (rv_trunc t) (rv_trunc d)
     && Z.eqb (rv_framing t) (rv_framing d)
     && hdrs_eqb (hdel_all allowed (hsort (remove_hop (rv_hdrs t)))) (hdel_all allowed (hsort (remove_hop (rv_hdrs d))))
+    (* what the backend itself put into a header that also carries an ID of the proxy is still delivered (nothing dropped) - unless
+       an interim response of the backend made the reverse proxy start the header map afresh *)
+    && (match rv_interim d with
+        | [] => forallb (fun kv => negb (existsb (fun k => bytes_eqb (canon_key k) (canon_key (fst kv))) (id_keys (wi_cfg k)))
+                                   || existsb (fun kv' => bytes_eqb (canon_key (fst kv)) (canon_key (fst kv')) && bytes_eqb (snd kv) (snd kv')) (rv_hdrs t))
+                        (rv_hdrs d)
+        | _ => true end)
     && list_eqb (map fst (rv_interim t)) (map fst (rv_interim d))
     && forallb (fun td => forallb (fun kv => existsb (fun kv' => bytes_eqb (fst kv) (fst kv') && bytes_eqb (snd kv) (snd kv')) (snd (fst td)))
                                   (snd (snd td)))
